@@ -81,7 +81,7 @@ void harness(void) {
     __CPROVER_assert(0, "COVER:reached_end");
 }
 """.replace("@NT@", str(nt)).replace("@POW2@", str(pow2)).replace("@NRMAX@", str(nrmax))
-    j = Job("C17.index[ntheta=%d]" % nt, "\n".join(c) + h, "P", timeout=600,
+    j = Job("C17.index[ntheta=%d]" % nt, "\n".join(c) + h, "P", timeout=600 if nt <= 64 else 3000,
             bounded="unwind 0 (loop-free); ntheta fixed = %d, nr <= 17 and split symbolic, indices and unwrapped angle symbolic" % nt,
             functions=["PolarGrid::wrapThetaIndex", "PolarGrid::index", "PolarGrid::fastIndex", "PolarGrid::multiIndex(int,int&,int&)",
                        "PolarGrid::index(MultiIndex)", "PolarGrid::multiIndex(int)"],
